@@ -103,7 +103,7 @@ func GetChunk(b []byte) (string, error) {
 		return "", fmt.Errorf("next type: %w", err)
 	}
 
-	if t == msgp.ExtensionType || t == msgp.IntType {
+	if t == msgp.ExtensionType || t == msgp.IntType || t == msgp.UintType {
 		// this is Message or MessageExt, which is sz 3
 		// when there are no options
 		if sz == 3 {
